@@ -190,6 +190,7 @@ func init() {
 		"math.Ldexp": func(fr *frame, a []value) value { return math.Ldexp(a[0].(float64), int(asInt64(a[1]))) },
 		// os
 		"os.Getenv": func(fr *frame, a []value) value { return "" },
+		"os.Getwd":  func(fr *frame, a []value) value { return tuple{"/work", iface{}} },
 		"os.Exit":   func(fr *frame, a []value) value { panic(engineAbort{kind: abortDone, msg: "os.Exit"}) },
 		"(*os.File).Write": func(fr *frame, a []value) value {
 			return tuple{len(a[1].([]value)), iface{}}
